@@ -111,7 +111,17 @@ def run_history(steps, family, rec, case=None):
         # the object under test is a stored model read back (it has never predicted anything, unlike a model that fit() just produced)
         m = zoo.model_class(fam).from_json(m.to_json())
     snapshot = json.loads(m.to_json())
-    pristine = copy.deepcopy(m)
+    js0 = m.to_json()
+
+    def _clone(obj):
+        # an independent copy of the unused model; objects that cannot be deep-copied are rebuilt from their stored form
+        try:
+            return copy.deepcopy(obj)
+        except Exception:
+            rec.note("model-not-deep-copyable")
+            return zoo.model_class(fam).from_json(js0)
+
+    pristine = _clone(m)
     pool = {}
     states = {}
     K = family
@@ -146,13 +156,13 @@ def run_history(steps, family, rec, case=None):
                 rec.note("predict-raises:" + type(e).__name__)
                 p = None
                 try:
-                    zoo.predict(copy.deepcopy(pristine), b, d) if flag else _predict_noflag(copy.deepcopy(pristine), b, d)
+                    zoo.predict(_clone(pristine), b, d) if flag else _predict_noflag(_clone(pristine), b, d)
                     rec.violation(K + "/predict-raises-only-after-history", case, "step %d predict(span %s) raises %s: %s; a copy of the unused model predicts the same data" % (
                         steps.index(step), i, type(e).__name__, str(e)[:120]))
                 except Exception:
                     pass
             if p is not None:
-                ref = zoo.predict(copy.deepcopy(pristine), b, d)
+                ref = zoo.predict(_clone(pristine), b, d)
                 dd = zoo.frame_bits_equal(p, ref)
                 if dd:
                     rec.violation(K + "/prediction-depends-on-history", case, "step %d predict(span %s): %s" % (steps.index(step), i, dd))
@@ -195,7 +205,7 @@ def run_history(steps, family, rec, case=None):
                 diff = sorted(k for k in set(a) | set(z) if a.get(k) != z.get(k))
                 rec.violation(K + "/reused-object/model-differs", case, "an object fitted to another meter first serialises differently at %s" % diff[:4])
             try:
-                dd = zoo.frame_bits_equal(zoo.predict(m2, b, d), zoo.predict(copy.deepcopy(pristine), b, d))
+                dd = zoo.frame_bits_equal(zoo.predict(m2, b, d), zoo.predict(_clone(pristine), b, d))
                 if dd:
                     rec.violation(K + "/reused-object/prediction-differs", case, "span %s: %s" % (step[2], dd))
             except Exception as e:
